@@ -442,6 +442,69 @@ def check_lcs(host, pat, case):
     return classes, size < len(pat)
 
 
+REUSE_OPS = ['bool-sub-T', 'bool-sub-F', 'bool-iso', 'iso-T', 'iso-F', 'iso-first', 'lcs-T', 'lcs-F', 'lcs-first']
+REUSE_CAP = 400
+
+
+def _reuse_ops(number):
+    """A query sequence derived from one drawn integer (three in four numbers give one): 2-4 operations."""
+    if number % 4 == 3:
+        return []
+    bits = int.from_bytes(hashlib.blake2b(b'reuse/%d' % number, digest_size=8).digest(), 'big')
+    return [REUSE_OPS[(bits >> (8 * i)) % len(REUSE_OPS)] for i in range(2 + bits % 3)]
+
+
+def _reuse_query(ismags, op):
+    """One query on an ISMAGS object, result in a comparable form (order of the yielded mappings is not part of it)."""
+    def keys(mappings):
+        return sorted(tuple(sorted(m.items())) if isinstance(m, dict) else ('<not a dict>', repr(m)) for m in mappings)
+    if op == 'bool-sub-T':
+        return bool(ismags.subgraph_is_isomorphic(True))
+    if op == 'bool-sub-F':
+        return bool(ismags.subgraph_is_isomorphic(False))
+    if op == 'bool-iso':
+        return bool(ismags.is_isomorphic(True))
+    if op == 'iso-T':
+        return keys(itertools.islice(ismags.find_isomorphisms(True), REUSE_CAP))
+    if op == 'iso-F':
+        return keys(itertools.islice(ismags.find_isomorphisms(False), REUSE_CAP))
+    if op == 'iso-first':
+        return keys(itertools.islice(ismags.subgraph_isomorphisms_iter(True), 1))
+    if op == 'lcs-T':
+        return keys(itertools.islice(ismags.largest_common_subgraph(True), REUSE_CAP))
+    if op == 'lcs-F':
+        return keys(itertools.islice(ismags.largest_common_subgraph(False), REUSE_CAP))
+    if op == 'lcs-first':
+        return keys(itertools.islice(ismags.largest_common_subgraph(True), 1))
+    raise HarnessError('unknown reuse op %r' % op)
+
+
+def check_reuse(host, pat, case):
+    """
+    Several queries on ONE ISMAGS object (is it contained? if not, what is the largest common part? ...): every answer must
+    be the one a fresh object gives for that query alone.  The fresh answers themselves are judged against the reference
+    matcher by check_isomorphisms / check_lcs in the same case.
+    """
+    ops = case['reuse']
+    shared = make_ismags(host, pat, case)
+    for pos, op in enumerate(ops):
+        fresh = _reuse_query(make_ismags(host, pat, case), op)
+        got = _reuse_query(shared, op)
+        if got != fresh:
+            raise Violation('reuse', 'query %d (%s) on an ISMAGS object that already answered %r gives %s, a fresh object gives %s'
+                            % (pos + 1, op, ops[:pos], _show_result(got), _show_result(fresh)))
+    classes = ['reuse']
+    if any(op.startswith('lcs') for op in ops[1:]) and any(not op.startswith('lcs') for op in ops):
+        classes.append('reuse-mixed')
+    return classes
+
+
+def _show_result(res):
+    if isinstance(res, bool):
+        return repr(res)
+    return '%d mappings%s' % (len(res), (' e.g. %r' % (dict(res[0]),)) if res else '')
+
+
 def run_case(case):
     host = build(case['host'])
     pat = build(case['pat'])
@@ -458,6 +521,8 @@ def run_case(case):
         cls, nt = check_lcs(host, pat, case)
         classes += cls
         nontrivial = nontrivial or nt
+    if case.get('reuse'):
+        classes += check_reuse(host, pat, case)
     if case['nm'] and len({c for _, c in case['pat']['nodes']}) > 1:
         classes.append('node-colours')
     if case['em'] and len({c for _, _, c in case['pat']['edges']}) > 1:
@@ -469,6 +534,10 @@ def run_case(case):
 
 # ---------------------------------------------------------------------------
 # part (i): exhaustive
+
+_REUSE_SEQUENCES = [['bool-sub-T', 'lcs-T'], ['iso-first', 'lcs-F'], ['lcs-T', 'iso-T'], ['bool-iso', 'lcs-T', 'iso-F'],
+                    ['iso-F', 'lcs-T', 'iso-T'], ['lcs-first', 'iso-T', 'lcs-F'], ['bool-sub-F', 'iso-T', 'lcs-T']]
+
 
 def _labelled_graphs(max_nodes):
     """(n, mask) for every labelled simple graph on 0..n-1, n = 0..max_nodes."""
@@ -503,12 +572,14 @@ def _enumerate_exhaustive(tier, shard, nshards):
             if idx % nshards != shard:
                 continue
             yield {'host': _desc_from_mask(hn, hmask), 'pat': _desc_from_mask(pn, pmask),
-                   'nm': False, 'em': False, 'do': ['iso', 'lcs'], 'cache': False}
+                   'nm': False, 'em': False, 'do': ['iso', 'lcs'], 'cache': False,
+                   'reuse': _REUSE_SEQUENCES[idx % len(_REUSE_SEQUENCES)]}
             digest = hashlib.blake2b(('%d/%d/%d/%d/%d' % (seed, pn, pmask, hn, hmask)).encode(), digest_size=8).digest()
             bits = int.from_bytes(digest, 'big')
             yield {'host': _desc_from_mask(hn, hmask, bits & 31, bits >> 5 & 1023),
                    'pat': _desc_from_mask(pn, pmask, bits >> 15 & 15, bits >> 19 & 63),
-                   'nm': True, 'em': bool(bits >> 25 & 1), 'do': ['iso', 'lcs'], 'cache': False}
+                   'nm': True, 'em': bool(bits >> 25 & 1), 'do': ['iso', 'lcs'], 'cache': False,
+                   'reuse': _REUSE_SEQUENCES[(bits >> 26) % len(_REUSE_SEQUENCES)]}
 
 
 # ---------------------------------------------------------------------------
@@ -627,6 +698,7 @@ def _strategy_random_case(draw, tier):
     return {'host': draw(_describe(n, hedges, hnc, hec)),
             'pat': draw(_describe(m, pedges, pnc, pec)),
             'nm': nm, 'em': em, 'do': ['iso'], 'cache': draw(st.sampled_from([False, False, False, True])),
+            'reuse': _reuse_ops(draw(st.integers(0, 2 ** 20))),
             'kind': kind}
 
 
@@ -965,7 +1037,8 @@ def _strategy_lcs_case(draw, tier):
     nm, em = _match_flags(draw, knc, kec)
     return {'host': draw(_describe(hn, hedges, hnc, hec)),
             'pat': draw(_describe(n, edges, pnc, pec)),
-            'nm': nm, 'em': em, 'do': ['lcs'], 'cache': False, 'kind': kind}
+            'nm': nm, 'em': em, 'do': ['lcs'], 'cache': False, 'kind': kind,
+            'reuse': _reuse_ops(draw(st.integers(0, 2 ** 20)))}
 
 
 def _strategy_lcs(tier):
@@ -983,7 +1056,7 @@ PARTS = [
     Part('random', run_case, case_timeout=CASE_TIMEOUT, strategy=_strategy_random,
          examples={'quick': 1600, 'thorough': 40000},
          floors={'match': 0.4, 'no-match': 0.04, 'A>=2': 0.1, 'several-orbits': 0.05, 'node-colours': 0.08,
-                 'edge-colours': 0.03, 'cache': 0.05}),
+                 'edge-colours': 0.03, 'cache': 0.05, 'reuse': 0.5, 'reuse-mixed': 0.1}),
     Part('symmetric', run_case, case_timeout=CASE_TIMEOUT, strategy=_strategy_symmetric,
          examples={'quick': 1600, 'thorough': 32000},
          floors={'match': 0.4, 'no-match': 0.05, 'A>=12': 0.15, 'A>=100': 0.04, 'several-orbits': 0.04,
@@ -991,7 +1064,7 @@ PARTS = [
     Part('lcs', run_case, case_timeout=CASE_TIMEOUT, strategy=_strategy_lcs,
          examples={'quick': 1200, 'thorough': 30000},
          floors={'lcs-shrunk': 0.4, 'lcs-shrunk>=2': 0.15, 'lcs-shrunk-A>=2': 0.25, 'lcs-reduced': 0.3, 'lcs-full': 0.08,
-                 'node-colours': 0.1, 'edge-colours': 0.04}),
+                 'node-colours': 0.1, 'edge-colours': 0.04, 'reuse': 0.5, 'reuse-mixed': 0.1}),
 ]
 
 
